@@ -393,6 +393,7 @@ def run_symbolic_unit(oid, case_idx, tier):
     ob = REGISTRY[oid]
     case = ob.cases[case_idx]
     t0 = time.time()
+    sym.CVC5_SAMPLE[0] = int(os.environ.get('VERIF_CVC5_EVERY', '8')) if tier == 'thorough' else 0
     res = {'oid': oid, 'case': case, 'case_idx': case_idx, 'paths': 0, 'claims': 0, 'proved': 0, 'solver_s': 0.0,
            'checks': 0, 'status': None, 'undecided': [], 'refuted': [], 'canary': None, 'covers': [],
            'sample_vc': None}
@@ -443,6 +444,13 @@ def run_symbolic_unit(oid, case_idx, tier):
         res['error'] = traceback.format_exc()
     res['covers'] = sorted(covers)
     res['wall_s'] = time.time() - t0
+    res['cvc5'] = {k: v for k, v in sym.CVC5_STATS.items() if k != 'seen'}
+    for k in list(sym.CVC5_STATS):
+        if k != 'seen':
+            del sym.CVC5_STATS[k]
+    if res['cvc5'].get('sat'):
+        res['status'] = 'ERROR'
+        res['error'] = f"back-end disagreement: cvc5 says sat on a VC z3 proved: {res['cvc5'].get('disagreements')}"
     if res['status'] is None:
         if res['refuted']:
             res['status'] = 'REFUTED'
@@ -492,7 +500,13 @@ def run_native_once(oid, case_idx, inputs=None, seed=None):
         ob.fn(w, **case)
     except Skip:
         return {'ok': True, 'skipped': True, 'used': w.used, 'failed': [], 'nclaims': 0}
-    except Exception as e:
+    except BaseException as e:
+        from .sym import Unsupported
+        from . import loader as _ld
+        if not isinstance(e, (Exception, Unsupported, _ld.TickCap)):
+            raise
+        # natively, a contract that cannot even be evaluated on the result (a decoder of the harness running off the end of a
+        # malformed encoding, a run-away cut by the tick cap) is a failed contract, with the input recorded
         tb = ''.join(traceback.format_exception(type(e), e, e.__traceback__)[-6:])
         return {'ok': False, 'skipped': False, 'used': w.used, 'failed': [f'no-unexpected-exception: {type(e).__name__}: {e}'],
                 'trace': tb, 'nclaims': len(w.claims)}
